@@ -56,7 +56,9 @@ def judge (op : List String) (go : String) : Verdict :=
     else if go == "fmt-error" then .ok ["fmt-error"]
     else if go == "ok" then .ok (["ok"] ++ (if hasSub src "/*" || hasSub src "//" then ["!nt", "with-comments"] else []))
     else if go == "not-idempotent" then
-      .violation (if hasInlineBlockComment src then "not-idempotent-with-inline-block-comment" else "not-idempotent") "fixed-point" [go]
+      .violation (if hasInlineBlockComment src then "not-idempotent-with-inline-block-comment"
+                  else if hasSub src "//" || hasSub src "/*" then "not-idempotent-with-comment"
+                  else "not-idempotent") "fixed-point" [go]
     else match go.splitOn " " with
       | ["comment", hex, keep] =>
         (match parseHex hex, keep.toNat? with
